@@ -542,8 +542,8 @@ impl Sim for GibbsSim {
 
     fn plan(_prop: &str, tier: Tier) -> Vec<Phase> {
         match tier {
-            Tier::Quick => vec![Phase { name: "runs", count: 60_000, exhaustive: false }],
-            Tier::Thorough => vec![Phase { name: "runs", count: 400_000, exhaustive: false }],
+            Tier::Quick => vec![Phase { name: "runs", count: 200_000, exhaustive: false }],
+            Tier::Thorough => vec![Phase { name: "runs", count: 1_500_000, exhaustive: false }],
         }
     }
 
@@ -647,6 +647,13 @@ impl Sim for GibbsSim {
 
     fn required_probes(_prop: &str, _tier: Tier) -> Vec<&'static str> {
         vec!["hold-out-was-inactive", "start-at-L-minus-w-chosen"]
+    }
+
+    fn components(_prop: &str) -> (Vec<String>, Vec<String>) {
+        (
+            vec!["lightmotif::sampler (Sampler, SamplerData, SamplerBuilder), seq, pwm, pli kernels per simulated host".into(), "rand 0.8 distributions (Uniform, WeightedIndex, index::sample) on top of the stubbed RngCore".into()],
+            vec!["RNG (SimRng: rand_core::RngCore with recorded and forced draws)".into(), "allocator (SimAlloc)".into(), "CPU probe (verif-hooks override)".into()],
+        )
     }
 
     fn assumptions(_prop: &str) -> Vec<String> {
